@@ -393,6 +393,12 @@ impl PeerConn {
 
     /// Play the responder side of the handshake (no deviations). Returns what was seen.
     pub async fn handshake_ok(&mut self, me: &PeerIdentity) -> Result<HandshakeRecord, String> {
+        self.handshake_ok_then(me, &[]).await
+    }
+
+    /// The same, with `trailer` (distribution frames) written in one piece with the acknowledgement: a peer may start
+    /// talking the moment it has acknowledged.
+    pub async fn handshake_ok_then(&mut self, me: &PeerIdentity, trailer: &[u8]) -> Result<HandshakeRecord, String> {
         let mut rec = HandshakeRecord::default();
         rec.send_name = self.read_frame(2).await.ok_or("eof before send_name")?;
         if !self.write(&proto::frame2(&proto::status("ok"))).await {
@@ -414,7 +420,9 @@ impl PeerConn {
             return Err("initiator's digest is wrong".into());
         }
         let ack = proto::ack(&handshake_digest(&me.cookie, their_challenge));
-        if !self.write(&proto::frame2(&ack)).await {
+        let mut last = proto::frame2(&ack);
+        last.extend_from_slice(trailer);
+        if !self.write(&last).await {
             return Err("write ack".into());
         }
         rec.completed = true;
@@ -533,6 +541,27 @@ pub async fn node_with_peer(bed: &Bed, their_flags: u64) -> Result<(std::sync::A
     let (r, p) = tokio::join!(node.connect("peer@127.0.0.1"), peer);
     r.map_err(|e| format!("node connect failed: {e}"))?;
     Ok((std::sync::Arc::new(node), p?))
+}
+
+/// A started Node that is not connected yet (processes can be spawned and registered before the peer appears).
+pub async fn started_node() -> Result<std::sync::Arc<edp_node::Node>, String> {
+    let mut node = edp_node::Node::new("rust@127.0.0.1", "cookie");
+    node.start(0).await.map_err(|e| format!("node start: {e}"))?;
+    Ok(std::sync::Arc::new(node))
+}
+
+/// Connect a started node to a conforming scripted peer that writes `trailer` together with its acknowledgement.
+pub async fn connect_node(bed: &Bed, node: &edp_node::Node, their_flags: u64, trailer: &[u8]) -> Result<PeerConn, String> {
+    let listener = bed.listen("peer").await?;
+    let me = default_peer("cookie", their_flags);
+    let peer = async {
+        let mut p = listener.accept().await?;
+        p.handshake_ok_then(&me, trailer).await?;
+        Ok::<_, String>(p)
+    };
+    let (r, p) = tokio::join!(node.connect("peer@127.0.0.1"), peer);
+    r.map_err(|e| format!("node connect failed: {e}"))?;
+    p
 }
 
 /// Install a schedule vector as the answer to every asynchronous scheduling point on this thread.
